@@ -228,3 +228,51 @@ Proof.
   destruct (N.leb_spec 16 (si_min_bs si)); [|lia]. destruct (N.leb_spec (si_min_bs si) (si_max_bs si)); [|lia]. cbn [andb negb].
   destruct Ht as [Ht|Ht]; [rewrite Ht; reflexivity|]. rewrite Ht, N.eqb_refl, Bool.orb_true_r. reflexivity.
 Qed.
+
+(* ---- the frames behind enc_blocks, for C14: each is a valid frame tree for its block ---- *)
+Lemma enc_blocks_frames o L si : forall blocks k bytes,
+  enc_blocks o L (si_rate si) (si_bps si) k blocks = Some bytes ->
+  Forall (fun b => block_ok si (si_bps si) b /\ 14 < block_len b) blocks ->
+  k + N.of_nat (length blocks) <= MAX_FRAME_NUMBER + 1 ->
+  exists fs, frames_bytes fs = Some bytes /\ Forall (frame_ok si) fs /\ map sem_frame fs = blocks /\
+             total_samples fs = blocks_samples blocks.
+Proof.
+  induction blocks as [|b blocks IH]; intros k bytes He Hall Hk.
+  - cbn in He. injection He as <-. exists []. repeat split; constructor.
+  - cbn [enc_blocks] in He.
+    destruct (enc_frame_bytes o L (si_rate si) (si_bps si) k b) as [x|] eqn:Ex; [|discriminate].
+    destruct (enc_blocks o L (si_rate si) (si_bps si) (k + 1) blocks) as [y|] eqn:Ey; [|discriminate]. injection He as <-.
+    apply Forall_cons_iff in Hall. destruct Hall as [[Hb H14] Hrest]. cbn [length] in Hk.
+    destruct (IH (k + 1) y Ey Hrest ltac:(lia)) as (fs & Hfb & Hfo & Hsem & Htot).
+    unfold enc_frame_bytes in Ex. destruct (enc_frame o L (si_rate si) (si_bps si) k b) as [f|] eqn:Ef; [|discriminate].
+    destruct (enc_frame_ok o L si _ _ k b f Ef Hb eq_refl ltac:(lia)) as (Hwf & Hsp & Hsm & _ & Hbs).
+    exists (f :: fs). cbn [frames_bytes map total_samples fold_right blocks_samples]. rewrite Ex, Hfb.
+    split; [reflexivity|]. split; [constructor; [|exact Hfo]; unfold frame_ok; rewrite Hbs; auto|].
+    split; [rewrite Hsm, Hsem; reflexivity|]. fold (total_samples fs). fold (blocks_samples blocks). rewrite Htot, Hbs. reflexivity.
+Qed.
+
+(* C14 for the encoder as written: the provisional header, the frames of the blocks encoded so far, and the frame of
+   the next block cut at any byte: the file opens and yields exactly the blocks encoded so far *)
+Theorem enc_interrupted_file o L si others blocks bytes b gb m :
+  enc_blocks o L (si_rate si) (si_bps si) 0 blocks = Some bytes ->
+  enc_frame_bytes o L (si_rate si) (si_bps si) (N.of_nat (length blocks)) b = Some gb ->
+  si_ok si -> blocks_ok others ->
+  Forall (fun x => block_ok si (si_bps si) x /\ 14 < block_len x) (blocks ++ [b]) ->
+  N.of_nat (length blocks) + 1 <= MAX_FRAME_NUMBER + 1 ->
+  (m < length gb)%nat ->
+  (si_total si = 0 \/ blocks_samples blocks + block_len b <= si_total si) ->
+  match dec_stream (file_of si others (bytes ++ firstn m gb)) with
+  | Some (si', out, e) => si' = si /\ out = map interleave_frame blocks /\ is_end_panic e = false
+  | None => False
+  end.
+Proof.
+  intros He Hg Hsi Hok Hall Hk Hm Ht.
+  apply Forall_app in Hall. destruct Hall as [Hbl Hb]. apply Forall_cons_iff in Hb. destruct Hb as [[Hb H14] _].
+  destruct (enc_blocks_frames o L si blocks 0 bytes He Hbl ltac:(lia)) as (fs & Hfb & Hfo & Hsem & Htot).
+  unfold enc_frame_bytes in Hg. destruct (enc_frame o L _ _ _ b) as [g|] eqn:Eg; [|discriminate].
+  destruct (enc_frame_ok o L si _ _ _ b g Eg Hb eq_refl ltac:(lia)) as (Hwf & Hsp & Hsm & _ & Hbs).
+  pose proof (interrupted_file si others fs bytes g gb m Hsi Hok Hfo Hfb) as H.
+  specialize (H ltac:(unfold frame_ok; rewrite Hbs; auto) Hg Hm ltac:(rewrite Htot, Hbs; exact Ht)).
+  destruct (dec_stream _) as [[[si' out] e]|]; [|exact H]. destruct H as (A & B & C). split; [exact A|]. split; [|exact C].
+  rewrite B, <- Hsem, map_map. reflexivity.
+Qed.
